@@ -114,6 +114,16 @@ package document
 //@   invariant forall k int :: 0 <= k && k < #i ==> deepcopy(newPara.Runs[k], source.Runs[k])
 //@   decreases len(source.Runs) - #i
 
+// Region closure (property C17). closedAbove(b): every live cell of a row / cell / table array whose id is at or
+// above b refers only to cell, paragraph, table and row arrays at or above b (and of the right element type).
+// Together with "nothing below b is written" this is how the renderer shows that it only writes memory of the
+// clone: starting from a table at or above b, following Rows, Cells, Paragraphs and Tables never leaves the
+// region, whatever the nesting depth - without a recursive predicate.
+//@ spec closedRows(b int) bool = forall r *TableRow :: {r.Cells} elemOf(r, "TableRow") && above(r, b) && live(r) ==> above(r.Cells, b) && tagged(r.Cells, "TableCell")
+//@ spec closedCells(b int) bool = forall r *TableCell :: {r.Paragraphs} {r.Tables} elemOf(r, "TableCell") && above(r, b) && live(r) ==> above(r.Paragraphs, b) && above(r.Tables, b) && tagged(r.Tables, "Table")
+//@ spec closedTables(b int) bool = forall r *Table :: {r.Rows} elemOf(r, "Table") && above(r, b) && live(r) ==> above(r.Rows, b) && tagged(r.Rows, "TableRow")
+//@ spec closedAbove(b int) bool = closedRows(b) && closedCells(b) && closedTables(b)
+
 // Tables: cloneTable / cloneTableRow / cloneTableCell are mutually recursive (nested tables). Each is verified
 // against the contracts of the others; termination of the mutual recursion (it follows the nesting depth of
 // the finite source table) is NOT proved.
@@ -122,18 +132,22 @@ package document
 //@ requires source != nil
 //@ modifies nothing
 //@ ensures deepcopy(result, source)
+//@ ensures closedAbove(old(allocBound())) && above(result.Paragraphs, old(allocBound())) && above(result.Tables, old(allocBound())) && tagged(result.Tables, "Table")
 //@ loop 1
 //@   invariant 0 <= #i && #i <= len(source.Paragraphs) && unchangedHeap()
 //@   invariant deepcopy(newCell.Properties, source.Properties) && len(newCell.Paragraphs) == len(source.Paragraphs) && (len(newCell.Paragraphs) == 0 || arr(newCell.Paragraphs) >= old(allocBound()))
 //@   invariant len(newCell.Tables) == len(source.Tables) && (len(newCell.Tables) == 0 || arr(newCell.Tables) >= old(allocBound()))
 //@   invariant forall k int :: 0 <= k && k < #i ==> deepcopy(newCell.Paragraphs[k], source.Paragraphs[k])
+//@   invariant closedAbove(old(allocBound())) && above(newCell.Paragraphs, old(allocBound())) && above(newCell.Tables, old(allocBound())) && tagged(newCell.Tables, "Table")
 //@   decreases len(source.Paragraphs) - #i
 //@ loop 2
 //@   invariant 0 <= #i && #i <= len(source.Tables) && unchangedHeap()
 //@   invariant deepcopy(newCell.Properties, source.Properties) && len(newCell.Paragraphs) == len(source.Paragraphs) && (len(newCell.Paragraphs) == 0 || arr(newCell.Paragraphs) >= old(allocBound()))
 //@   invariant len(newCell.Tables) == len(source.Tables) && (len(newCell.Tables) == 0 || arr(newCell.Tables) >= old(allocBound()))
 //@   invariant forall k int :: 0 <= k && k < len(source.Paragraphs) ==> deepcopy(newCell.Paragraphs[k], source.Paragraphs[k])
-//@   invariant forall k int :: 0 <= k && k < #i ==> deepcopy(newCell.Tables[k], source.Tables[k])
+//@   invariant forall k int :: 0 <= k && k < #i - 1 ==> deepcopyAbove(newCell.Tables[k], source.Tables[k], loopBound())
+//@   invariant closedAbove(old(allocBound())) && above(newCell.Paragraphs, old(allocBound())) && above(newCell.Tables, old(allocBound())) && tagged(newCell.Tables, "Table")
+//@   invariant #i >= 1 ==> deepcopyAbove(newCell.Tables[#i - 1], source.Tables[#i - 1], loopBound())
 //@   decreases len(source.Tables) - #i
 
 //@ func (*TemplateEngine).cloneTableRow
@@ -141,10 +155,13 @@ package document
 //@ requires source != nil
 //@ modifies nothing
 //@ ensures deepcopy(result, source)
+//@ ensures closedAbove(old(allocBound())) && above(result.Cells, old(allocBound())) && tagged(result.Cells, "TableCell")
 //@ loop 1
 //@   invariant 0 <= #i && #i <= len(source.Cells) && unchangedHeap()
 //@   invariant newRow != nil && fresh(newRow) && deepcopy(newRow.Properties, source.Properties) && len(newRow.Cells) == len(source.Cells) && (len(newRow.Cells) == 0 || arr(newRow.Cells) >= old(allocBound()))
-//@   invariant forall k int :: 0 <= k && k < #i ==> deepcopy(newRow.Cells[k], source.Cells[k])
+//@   invariant forall k int :: 0 <= k && k < #i - 1 ==> deepcopyAbove(newRow.Cells[k], source.Cells[k], loopBound())
+//@   invariant closedAbove(old(allocBound())) && above(newRow.Cells, old(allocBound())) && tagged(newRow.Cells, "TableCell")
+//@   invariant #i >= 1 ==> deepcopyAbove(newRow.Cells[#i - 1], source.Cells[#i - 1], loopBound())
 //@   decreases len(source.Cells) - #i
 
 //@ func (*TemplateEngine).cloneTable
@@ -152,8 +169,11 @@ package document
 //@ requires source != nil
 //@ modifies nothing
 //@ ensures deepcopy(result, source)
+//@ ensures closedAbove(old(allocBound())) && above(result.Rows, old(allocBound())) && tagged(result.Rows, "TableRow")
 //@ loop 1
 //@   invariant 0 <= #i && #i <= len(source.Rows) && unchangedHeap()
 //@   invariant newTable != nil && fresh(newTable) && deepcopy(newTable.Properties, source.Properties) && deepcopy(newTable.Grid, source.Grid) && len(newTable.Rows) == len(source.Rows) && (len(newTable.Rows) == 0 || arr(newTable.Rows) >= old(allocBound()))
-//@   invariant forall k int :: 0 <= k && k < #i ==> deepcopy(newTable.Rows[k], source.Rows[k])
+//@   invariant forall k int :: 0 <= k && k < #i - 1 ==> deepcopyAbove(newTable.Rows[k], source.Rows[k], loopBound())
+//@   invariant closedAbove(old(allocBound())) && above(newTable.Rows, old(allocBound())) && tagged(newTable.Rows, "TableRow")
+//@   invariant #i >= 1 ==> deepcopyAbove(newTable.Rows[#i - 1], source.Rows[#i - 1], loopBound())
 //@   decreases len(source.Rows) - #i
